@@ -106,7 +106,7 @@ class Run:
                 lines.append("  at: %s" % v["at"])
             if v.get("detail"):
                 d = v["detail"] if isinstance(v["detail"], str) else json.dumps(v["detail"], default=str)
-                lines.append("  detail: %s" % d[:1500])
+                lines.append("  detail: %s" % d[:400])
         # known findings that did not reproduce are reported (informational, not a failure)
         hit_keys = {v["key"] for v in self.known_hits}
         for k in open_known:
